@@ -267,6 +267,12 @@ struct BigInt {
     }
     ////////////////////////////////////////////////////
     inline void Multiply(Number_T multiplier) noexcept {
+        if (multiplier == 0) {
+            // Keeps the top-word index at the highest nonzero word (zero has index 0).
+            Clear();
+            return;
+        }
+
         SizeT32 index = index_;
         ++index;
 
